@@ -932,21 +932,6 @@ func init() {
 
 // ---------------------------------------------------------------- c19.record / c19.pairs
 
-type c19RWC struct {
-	r     io.Reader
-	wrote bytes.Buffer
-}
-
-func (c *c19RWC) Read(b []byte) (int, error)  { return c.r.Read(b) }
-func (c *c19RWC) Write(b []byte) (int, error) { return c.wrote.Write(b) }
-func (c *c19RWC) Close() error                { return nil }
-
-func fcgiRec(typ byte, id uint16, content []byte, pad int) []byte {
-	b := []byte{1, typ, byte(id >> 8), byte(id), byte(len(content) >> 8), byte(len(content)), byte(pad), 0}
-	b = append(b, content...)
-	return append(b, make([]byte, pad)...)
-}
-
 func c19RandomFraming(r *hx.Rng) []byte {
 	var b []byte
 	for k := r.Intn(7); k > 0; k-- {
@@ -1012,7 +997,7 @@ func init() {
 			fin := ""
 			var c *fastcgi.FCGIClient
 			out := c19Guard(func() string {
-				c = fastcgi.VerifNewClient(&c19RWC{r: bytes.NewReader(inp)}, 1)
+				c = fastcgi.VerifNewClient(&fcgiRWC{r: bytes.NewReader(inp)}, 1)
 				sr := c.VerifStreamReader()
 				buf := make([]byte, 70000)
 				for i := 0; ; i++ {
@@ -1062,7 +1047,7 @@ func init() {
 		Eval: func(f []string) (string, []string) {
 			kl, _ := strconv.Atoi(f[0])
 			vl, _ := strconv.Atoi(f[1])
-			rwc := &c19RWC{r: bytes.NewReader(nil)}
+			rwc := &fcgiRWC{r: bytes.NewReader(nil)}
 			out := c19Guard(func() string {
 				c := fastcgi.VerifNewClient(rwc, 1)
 				if err := c.VerifWritePairs(4, map[string]string{c13Filler(0, kl): c13Filler(7, vl)}); err != nil {
@@ -1078,15 +1063,6 @@ func init() {
 			}
 			return out, c19Tags(out, "value-truncated")
 		}})
-}
-
-// c13Filler is the deterministic filler shared with the Lean drivers (`filler seed n`).
-func c13Filler(seed, n int) string {
-	b := make([]byte, n)
-	for i := range b {
-		b[i] = byte(97 + (seed+i)%26)
-	}
-	return string(b)
 }
 
 // ---------------------------------------------------------------- c19.explore (no model)
@@ -1144,7 +1120,7 @@ func init() {
 			out := c19Guard(func() string {
 				switch f[0] {
 				case "fcgiresp":
-					c := fastcgi.VerifNewClient(&c19RWC{r: bytes.NewReader(hx.UnH(f[1]))}, 1)
+					c := fastcgi.VerifNewClient(&fcgiRWC{r: bytes.NewReader(hx.UnH(f[1]))}, 1)
 					resp, err := c.Request(map[string]string{"A": "b"}, strings.NewReader("x"))
 					if err != nil {
 						tags = append(tags, "request-error")
